@@ -288,6 +288,26 @@ func (m *Machine) concretize(t *Term, what string) uint64 {
 	return first
 }
 
+// checkAllocLimit: inside symapi.NoLargeAlloc a make() whose length can exceed the limit
+// is a violation (label "alloc-limit").
+func (m *Machine) checkAllocLimit(n *Term, signed bool, elemSize int) {
+	if m.allocLimit <= 0 {
+		return
+	}
+	lim := m.tb.Const(n.Sort.W, uint64(m.allocLimit/elemSize))
+	var big *Term
+	if signed {
+		big = m.tb.Cmp(OpSLt, lim, n)
+	} else {
+		big = m.tb.Cmp(OpULt, lim, n)
+	}
+	if m.branch(big) {
+		m.ensureModelSafe()
+		m.violation("assert", "alloc-limit", "allocation length can exceed the limit", m.model)
+		panic(pathEnd{"violation"})
+	}
+}
+
 // concretizeAlloc concretizes an allocation length: every value up to AllocEnumMax is
 // explored; larger lengths are explored at one representative value chosen by the solver
 // (recorded as a note; stated in the bounds of the check).
@@ -506,6 +526,7 @@ func (m *Machine) resetPath(h *HarnessSpec, item WorkItem) {
 	m.params = h.Params
 	m.notes = nil
 	m.envVars = nil
+	m.allocLimit = 0
 	m.vinfo = map[int]*varInfo{}
 	m.threads = nil
 	m.curThread = nil
